@@ -96,9 +96,23 @@ def select_case(draw):
     gain = round(draw(st.one_of(st.floats(0.0, 40.0), st.sampled_from([e['gain_flatmax'] for e in lib if 'gain_flatmax' in e])
                                 .map(lambda g: g + 1.0))), 3)
     power = round(draw(st.one_of(st.floats(5.0, 27.0), st.sampled_from([20.0, 21.0, 23.0, 19.82]))), 3)
+    ext = draw(st.sampled_from([2.5, 0.0, 1.0, 3.0]))
+    subset = draw(st.lists(st.booleans(), min_size=len(lib), max_size=len(lib)))
+    if draw(st.integers(0, 3)) == 0:
+        # two models a fraction of a dB apart in maximum gain and a requirement in between: one can just deliver it (by
+        # 0.05-0.15 dB), the other just cannot (short by 0.05-0.15 dB)
+        g = draw(st.integers(18, 30))
+        can = draw(netgen.variable_gain_entry('NA', design=True, gain_range=(g - 10, g)))
+        cannot = draw(netgen.variable_gain_entry('NB', design=True, gain_range=(g - 10.2, g - 0.2)))
+        for e in (can, cannot):
+            e['p_max'] = 25
+            e['out_voa_auto'] = False
+        lib += [can, cannot]
+        subset += [True, True]
+        gain = round(g + ext - draw(st.sampled_from([0.05, 0.1, 0.15])), 3)
+        power = round(draw(st.sampled_from([15.0, 18.0, 20.0])), 3)
     return {'edfa': lib, 'gain': gain, 'power': power, 'raman_allowed': draw(st.booleans()),
-            'ext': draw(st.sampled_from([2.5, 0.0, 1.0, 3.0])),
-            'subset': draw(st.lists(st.booleans(), min_size=len(lib), max_size=len(lib)))}
+            'ext': ext, 'subset': subset}
 
 
 def run_select(case, ctx):
@@ -327,6 +341,12 @@ def multiband_case(draw):
             e['p_max'] = draw(st.sampled_from([23, 25]))
             edfa.append(e)
             parts.append(e['type_variety'])
+        if i >= 1 and draw(st.integers(0, 2)) == 0:
+            # this model shares the amplifier of one band with model 0 (same L or same C amplifier, another one in the other band)
+            k = draw(st.integers(0, 1))
+            dropped = parts[k]
+            edfa[:] = [e for e in edfa if e['type_variety'] != dropped]
+            parts[k] = ('C0', 'L0')[k]
         if draw(st.booleans()):
             parts.reverse()
         edfa.append(bandnets._mb(f'MB{i}', parts, design=(i == 0) or draw(st.integers(0, 3)) > 0))
@@ -427,10 +447,15 @@ def run_multiband(case, ctx):
         # one multiband type serves all bands, so the quietest model of one band may not be the quietest of another: the
         # chosen type must not be dominated, i.e. no capable permitted type is quieter in every band
         for t in sorted(capable_types):
-            if t != chosen_type and all(nf[(t, b)] < nf[(chosen_type, b)] - 1e-9 for b in per_band):
+            def same_model(b):
+                pick = lambda typ: next(n for n in lib[typ]['amplifiers'] if (lib[n]['f_max'] < 191e12) == (b == 'L'))  # noqa E731
+                return pick(t) == pick(chosen_type)
+            # (two different models with the same noise figure in one band are a tie: not judged)
+            if t != chosen_type and all(same_model(b) or nf[(t, b)] < nf[(chosen_type, b)] - 1e-6 for b in per_band) and \
+                    any(nf[(t, b)] < nf[(chosen_type, b)] - 1e-6 for b in per_band):
                 ctx.violation('quieter-capable-multiband-model-exists',
                               f'{node.uid}: chosen {chosen_type} ' + str({b: round(nf[(chosen_type, b)], 3) for b in per_band})
-                              + f' but {t} ' + str({b: round(nf[(t, b)], 3) for b in per_band}) + ' is quieter in every band')
+                              + f' but {t} ' + str({b: round(nf[(t, b)], 3) for b in per_band}) + ' is at least as quiet in every band and quieter in one')
                 break
         if len(capable_types) >= 2:
             interesting = True
